@@ -68,6 +68,12 @@ impl<'de> Deserialize<'de> for Transaction {
     }
 }
 
+/// Verification hooks: re-exports of the private RLP primitives.
+#[cfg(feature = "verif-hooks")]
+pub mod verif_hooks {
+    pub use super::rlp::{bytes as rlp_bytes, len as rlp_len, list as rlp_list, uint as rlp_uint};
+}
+
 #[cfg(test)]
 mod tests {
     use super::*;
